@@ -51,6 +51,8 @@ class PathEnum:
                 v = self.field(v, p['f'], p.get('n'))
             elif isinstance(p, dict) and 'dc' in p:
                 v = T('downcast', v, p['dc'])
+            elif isinstance(p, dict) and 'idx' in p:
+                v = T('index', v, store.get(p['idx'], T('undef', p['idx'])))
             else:
                 v = T('index', v)
         return v
